@@ -73,6 +73,10 @@ pub struct Scn {
     /// server: the connection is polled the way h3-webtransport's `accept_uni()` does it - through
     /// `inner.poll_accept_recv()` alone, from a task that has not polled it before (a session moved to a task of its own)
     pub recv_only: bool,
+    /// server (with drop_driver): the connection is not polled in the race but dropped in it - dropping is the server's way of
+    /// closing with H3_NO_ERROR, and it takes part in the election of the connection's outcome like the drop of the client's last
+    /// SendRequest does
+    pub drop_races: bool,
 }
 
 fn raise_code(r: Raise) -> u64 {
@@ -114,7 +118,7 @@ fn poll_driver(d: &mut DriverObj, cx: &mut Context<'_>) -> Poll<ConnInfo> {
 }
 
 fn scn_json(s: &Scn) -> Value {
-    json!({"role": if s.server { "server" } else { "client" }, "driver_polled_before": s.driver_polled_before, "streams": s.streams.iter().map(|r| format!("{r:?}")).collect::<Vec<_>>(), "transport_close": s.transport_close, "driver_own_error": s.driver_own_error, "dropper": s.dropper, "drop_driver": s.drop_driver, "recv_only": s.recv_only})
+    json!({"role": if s.server { "server" } else { "client" }, "driver_polled_before": s.driver_polled_before, "streams": s.streams.iter().map(|r| format!("{r:?}")).collect::<Vec<_>>(), "transport_close": s.transport_close, "driver_own_error": s.driver_own_error, "dropper": s.dropper, "drop_driver": s.drop_driver, "recv_only": s.recv_only, "drop_races": s.drop_races})
 }
 
 fn bad_bytes(r: Raise, server: bool) -> (Vec<u8>, bool) {
@@ -286,7 +290,12 @@ fn run_scn_inner(s: &Scn, t: &mut Tape, ctx: &mut Ctx) -> Verdict {
         let w = dwaker.clone();
         let mut d = driver;
         let recv_only = s.recv_only;
+        let drop_races = s.drop_races;
         jobs.push(Box::new(move || {
+            if drop_races {
+                drop(d);
+                return Out::Dropped;
+            }
             let mut cx = Context::from_waker(&w);
             let r = match (&mut d, recv_only) {
                 (DriverObj::Server(c), true) => match c.inner.poll_accept_recv(&mut cx) {
@@ -361,7 +370,9 @@ fn run_scn_inner(s: &Scn, t: &mut Tape, ctx: &mut Ctx) -> Verdict {
     // E = the error whose store step ran first
     let first_store = log.iter().find(|(_, p)| *p == "error.store").map(|(i, _)| *i);
     let expected: Option<ConnInfo> = first_store.map(|i| {
-        if i == 0 {
+        if i == 0 && s.drop_races {
+            ConnInfo::Local { code: code::NO_ERROR }
+        } else if i == 0 {
             // the driver: the transport's error, or the closed control stream
             match s.transport_close {
                 Some(c) => ConnInfo::RemoteApp { code: c },
@@ -402,13 +413,16 @@ fn run_scn_inner(s: &Scn, t: &mut Tape, ctx: &mut Ctx) -> Verdict {
         let closes = net.close_calls(side);
         if let ConnInfo::Local { code } = &e {
             if closes.first().map(|c| c.code) != Some(*code) {
+                if s.drop_races {
+                    return fail(format!("the connection was dropped while a request handle raised an error; the first outcome stored is {e:?} and every handle reports it, but the transport saw {closes:?}: the QUIC connection must be closed with exactly that code"));
+                }
                 return fail(format!("h3 detected {e:?}, then the connection was dropped without another poll: the QUIC connection must be closed with that code, the transport saw {closes:?}"));
             }
         }
         drop(stream_objs);
         drop(sr_keep);
         ctx.class(if s.server { "role_server" } else { "role_client" });
-        ctx.class(if seen { "driver_dropped_after_it_saw_the_error" } else { "driver_dropped_before_it_saw_the_error" });
+        ctx.class(if s.drop_races { "connection_dropped_in_the_race" } else if seen { "driver_dropped_after_it_saw_the_error" } else { "driver_dropped_before_it_saw_the_error" });
         ctx.nontrivial(&(s.clone(), log.clone()));
         return Ok(());
     }
@@ -590,16 +604,17 @@ fn variants_opt(kmax: usize, all_droppers: bool) -> Vec<Scn> {
                         if internal {
                             st[0] = Raise::TransportInternal;
                         }
-                        v.push(Scn { server, driver_polled_before: polled, streams: st.clone(), transport_close: tc, driver_own_error: own, dropper, drop_driver: false, recv_only: false });
+                        v.push(Scn { server, driver_polled_before: polled, streams: st.clone(), transport_close: tc, driver_own_error: own, dropper, drop_driver: false, recv_only: false, drop_races: false });
                         if !server && tc.is_none() && !own && !internal && !dropper {
                             // the client driver has no other way of being given up either
-                            v.push(Scn { server, driver_polled_before: polled, streams: st.clone(), transport_close: tc, driver_own_error: own, dropper, drop_driver: true, recv_only: false });
+                            v.push(Scn { server, driver_polled_before: polled, streams: st.clone(), transport_close: tc, driver_own_error: own, dropper, drop_driver: true, recv_only: false, drop_races: false });
                         }
                         if server && tc.is_none() && !own && !internal {
-                            v.push(Scn { server, driver_polled_before: polled, streams: st.clone(), transport_close: tc, driver_own_error: own, dropper, drop_driver: true, recv_only: false });
+                            v.push(Scn { server, driver_polled_before: polled, streams: st.clone(), transport_close: tc, driver_own_error: own, dropper, drop_driver: true, recv_only: false, drop_races: false });
                             if k == 1 {
-                                v.push(Scn { server, driver_polled_before: polled, streams: st, transport_close: tc, driver_own_error: own, dropper, drop_driver: false, recv_only: true });
+                                v.push(Scn { server, driver_polled_before: polled, streams: st.clone(), transport_close: tc, driver_own_error: own, dropper, drop_driver: false, recv_only: true, drop_races: false });
                             }
+                            v.push(Scn { server, driver_polled_before: polled, streams: st, transport_close: tc, driver_own_error: own, dropper, drop_driver: true, recv_only: false, drop_races: true });
                         }
                     }
                 }
@@ -812,7 +827,7 @@ fn exhaustive(ctx: &mut Ctx, shard: usize, nshards: usize) -> Verdict {
 
 fn parse_scn(v: &Value) -> Scn {
     let streams = v["streams"].as_array().map(|a| a.iter().map(|x| match x.as_str() { Some("Qpack") => Raise::Qpack, Some("FrameError") => Raise::FrameError, Some("Transport") => Raise::Transport, Some("TransportInternal") => Raise::TransportInternal, _ => Raise::FrameUnexpected }).collect()).unwrap_or_default();
-    Scn { server: v["role"].as_str() == Some("server"), driver_polled_before: v["driver_polled_before"].as_bool().unwrap_or(false), streams, transport_close: v["transport_close"].as_u64(), driver_own_error: v["driver_own_error"].as_bool().unwrap_or(false), dropper: v["dropper"].as_bool().unwrap_or(false), drop_driver: v["drop_driver"].as_bool().unwrap_or(false), recv_only: v["recv_only"].as_bool().unwrap_or(false) }
+    Scn { server: v["role"].as_str() == Some("server"), driver_polled_before: v["driver_polled_before"].as_bool().unwrap_or(false), streams, transport_close: v["transport_close"].as_u64(), driver_own_error: v["driver_own_error"].as_bool().unwrap_or(false), dropper: v["dropper"].as_bool().unwrap_or(false), drop_driver: v["drop_driver"].as_bool().unwrap_or(false), recv_only: v["recv_only"].as_bool().unwrap_or(false), drop_races: v["drop_races"].as_bool().unwrap_or(false) }
 }
 
 fn run_direct(d: &Value, ctx: &mut Ctx) -> Verdict {
